@@ -81,36 +81,36 @@ type wop struct {
 func (p *wop) inflight() bool { return p.calls == 0 && !p.dropped }
 
 type wobj struct {
-	id         int
-	kind       objKind
-	w          *world
-	st         sonic.FileDescriptor
-	netc       net.Conn
-	ln         sonic.Listener
-	pc         sonic.PacketConn
-	mp         *multicast.UDPPeer
-	rawFd      int
-	peer       int
-	peerGone   string // "", "closed", "reset", "shutwr"
-	closed     bool
-	rd, wr     *wop
-	canRead    bool
-	canWrite   bool
-	rdOff      int64 // bytes delivered by completed reads
-	wrOff      int64 // bytes reported by completed writes
-	peerWrote  int64
-	peerRead   int64
-	contentOK  bool
-	wrErrored  bool
-	clients    []int
-	accepted   []sonic.Conn
-	path       string
-	peerUDP    *net.UDPAddr
-	peer2      int          // datagram objects: a second receiver on another port (write destinations vary)
-	peer2UDP   *net.UDPAddr
-	dgramsSent [][]byte // datagrams the peer sent, not yet read
-	twoInFlight bool
-	broken      bool // descriptor replaced underneath (C03): epoll_ctl fails for it
+	id            int
+	kind          objKind
+	w             *world
+	st            sonic.FileDescriptor
+	netc          net.Conn
+	ln            sonic.Listener
+	pc            sonic.PacketConn
+	mp            *multicast.UDPPeer
+	rawFd         int
+	peer          int
+	peerGone      string // "", "closed", "reset", "shutwr"
+	closed        bool
+	rd, wr        *wop
+	canRead       bool
+	canWrite      bool
+	rdOff         int64 // bytes delivered by completed reads
+	wrOff         int64 // bytes reported by completed writes
+	peerWrote     int64
+	peerRead      int64
+	contentOK     bool
+	wrErrored     bool
+	clients       []int
+	accepted      []sonic.Conn
+	path          string
+	peerUDP       *net.UDPAddr
+	peer2         int // datagram objects: a second receiver on another port (write destinations vary)
+	peer2UDP      *net.UDPAddr
+	dgramsSent    [][]byte // datagrams the peer sent, not yet read
+	twoInFlight   bool
+	broken        bool // descriptor replaced underneath (C03): epoll_ctl fails for it
 	deadlineArmed bool // a write deadline is set on the adapter's net.Conn: a big write returns (n>0, timeout) instead of blocking
 }
 
@@ -127,17 +127,17 @@ type world struct {
 	dir     string
 
 	depth, maxDepth int
-	inPoll           bool
-	cancelSet        map[*wop]bool
-	handlersInPoll   int
-	quiesce          bool
+	inPoll          bool
+	cancelSet       map[*wop]bool
+	handlersInPoll  int
+	quiesce         bool
 
 	deepPC   sonic.PacketConn
 	sinkFd   int
 	sinkAddr *net.UDPAddr
 	rawLn    *sysx.RawTCPListener
 
-	checkContent bool
+	checkContent    bool
 	writeAfterError bool // error chains keep writing on a connection whose writes fail
 	// ledger extras (C03)
 	timers       []*wtimer
@@ -145,11 +145,11 @@ type world struct {
 
 	// classes
 	batchMulti, crossTouch, bothDirs, faultWhileDeferred, deepIssue, wouldBlock bool
-	multiSegment                                                               bool
-	cleanup                                                                    []func()
-	postHook                                                                   func(from string)
-	onComplete                                                                 func(p *wop)
-	linkHook                                                                   func(p *wop) // called with the new op before it is issued
+	multiSegment                                                                bool
+	cleanup                                                                     []func()
+	postHook                                                                    func(from string)
+	onComplete                                                                  func(p *wop)
+	linkHook                                                                    func(p *wop) // called with the new op before it is issued
 }
 
 type wtimer struct {
